@@ -240,7 +240,7 @@ def oracle(prog, lines):
         if fails:
             break
         if line.startswith("<<"):
-            fail("crash", line)
+            fail("crash", " ".join(l for l in lines if l.startswith("<<")))
             break
         if line.startswith("# T"):
             w = line.split()
@@ -575,40 +575,36 @@ def evaluate(exe, prog, with_model=True, env=None):
 
 
 def contexts(prog, impl):
-    """which submission / quit contexts this run exercised (for the evidence histogram)"""
+    """which submission / quit / destruction contexts this run exercised (for the evidence histogram)"""
     L = prog.L()
     seen = set()
     phase = "before"
-    stack = {}
     depth = 0
+    names = {"q": "queue", "r": "run", "quit": "quit"}
     for line in impl:
         if line.startswith("# T"):
             w = line.split()
             k = int(w[1][1:])
             if w[2] == "call":
-                stack.setdefault(k, []).append(w[3])
                 kind = w[3]
-                if kind in ("q", "r", "quit"):
+                if kind in names:
                     if k != L:
-                        where = "foreign"
-                    elif phase == "before":
-                        where = "before-loop"
+                        seen.add("%s:foreign" % names[kind])
+                        seen.add("%s:foreign@%s" % (names[kind], phase))
+                    elif phase in ("before", "published"):
+                        seen.add("%s:before-loop" % names[kind])
                     elif depth >= 2:
-                        where = "nested"
+                        seen.add("%s:nested" % names[kind])
                     elif phase == "dispatch":
-                        where = "io-handler"
-                    elif phase in ("draining", "finaldraining"):
-                        where = "functor" if phase == "draining" else "final-drain"
+                        seen.add("%s:io-handler" % names[kind])
+                    elif phase == "draining":
+                        seen.add("%s:functor" % names[kind])
+                    elif phase == "finaldraining":
+                        seen.add("%s:final-drain" % names[kind])
                     else:
-                        where = phase
-                    seen.add("%s:%s" % ({"q": "queue", "r": "run", "quit": "quit"}[kind], where))
-                    if k != L and kind in ("q", "r", "quit"):
-                        seen.add("%s:foreign@%s" % ({"q": "queue", "r": "run", "quit": "quit"}[kind], phase))
+                        seen.add("%s:%s" % (names[kind], phase))
                 elif kind == "destroy":
                     seen.add("destroy@%s" % phase)
-            elif w[2] == "ret":
-                if stack.get(k):
-                    stack[k].pop()
             elif w[2] == "leave":
                 depth -= 1
             continue
@@ -621,18 +617,15 @@ def contexts(prog, impl):
             depth += 1
         if k == L:
             m = {"point loop:entry": "entered", "point loop:beforePoll": "inpoll", "point loop:afterPoll": "dispatch",
-                 "point doPendingFunctors:beforeSwap": "preswap", "point loop:afterFunctors": "between",
-                 "point loop:exit": "exiting", "returned": "returned", "point threadFunc:loopReturned": "returned",
-                 "destroyed": "destroyed", "point threadFunc:published": "published"}
+                 "point loop:afterFunctors": "between", "point loop:exit": "exiting", "returned": "returned",
+                 "point threadFunc:loopReturned": "returned", "destroyed": "destroyed",
+                 "point threadFunc:published": "published"}
             if what in m:
                 phase = m[what]
+            elif what == "point doPendingFunctors:beforeSwap":
+                phase = "finalpreswap" if phase == "exiting" else "preswap"
             elif what == "point doPendingFunctors:afterSwap":
-                phase = "finaldraining" if phase == "exiting" or phase == "finalpreswap" else "draining"
-            if what == "point doPendingFunctors:beforeSwap" and phase == "preswap" and "exiting" in seen:
-                pass
-        if what == "point loop:exit":
-            seen.add("exiting")
-    seen.discard("exiting")
+                phase = "finaldraining" if phase == "finalpreswap" else "draining"
     return seen
 
 
@@ -880,6 +873,118 @@ class Runner:
             else:
                 self._report_mismatch(exe, q, tag)
         return runs, exhausted
+
+
+def exhaustive_programs(which):
+    """small programs whose schedules are enumerated completely under a preemption bound (thorough tier)"""
+    out = []
+
+    def prog(mode, tasks, pre, threads):
+        p = Prog()
+        p.mode, p.tasks, p.pre, p.threads = mode, tasks, pre, threads
+        return p
+    if which == "C04":
+        # two submitters x two tasks against a loop that has work queued before loop()
+        out.append(("2x2-submitters", prog("plain", {1: [], 2: [], 3: [], 4: [], 5: []}, ["q5"], {1: ["q1", "q2"], 2: ["q3", "q4"]}), 2))
+        # foreign runInLoop + a functor that queues from inside the drain + an I/O handler that queues
+        out.append(("nested-io", prog("plain", {1: ["q3"], 2: ["q4"], 3: [], 4: []}, ["q1"], {1: ["r3", "p2"]}), 2))
+        # submission racing with quit: the final drain
+        out.append(("queue-vs-quit", prog("plain", {1: [], 2: []}, ["q1"], {1: ["q2", "quit"]}), 3))
+    else:
+        out.append(("quit-vs-loop-entry", prog("plain", {1: []}, ["q1"], {1: ["quit"]}), 3))
+        out.append(("two-quitters", prog("plain", {1: ["quit"]}, [], {1: ["quit"], 2: ["q1"]}), 2))
+        out.append(("start-destroy", prog("elt", {1: []}, ["q1"], {0: ["startLoop", "destroy"]}), 3))
+        out.append(("start-use-destroy", prog("elt", {1: []}, [], {0: ["startLoop", "q1", "destroy"]}), 2))
+        out.append(("selfquit-vs-destroy", prog("elt", {1: ["quit"]}, [], {0: ["startLoop", "p1", "destroy"]}), 3))
+    return out
+
+
+ASAN_ENV = {"ASAN_OPTIONS": "detect_stack_use_after_return=1:abort_on_error=0:exitcode=99:detect_leaks=0",
+            "UBSAN_OPTIONS": "print_stacktrace=1"}
+
+
+def correspondence(prop, ctx, replay_file, which):
+    """the correspondence part of ./check C04 and ./check C05 (which = "C04" | "C05")"""
+    kinds = C04_KINDS if which == "C04" else C05_KINDS
+    quick = ctx.quick() and not ctx.search_mode
+    exe = ctx.exe("loop_drv", "dbg")
+    rn = Runner(prop, ctx, kinds)
+    try:
+        if replay_file:
+            engine, lines = read_case_file(replay_file)
+            if engine == ENGINE:
+                replay(prop, ctx, exe, lines, kinds)
+                if which == "C05":
+                    asan = ctx.exe("loop_drv", "asan")
+                    rn.env = ASAN_ENV
+                    rn.run_progs(asan, [("replay-asan", parse_case(lines))], "replay")
+            return engine
+        ctx.extra["flavours"] = ["dbg"] + (["asan (detect_stack_use_after_return)"] if which == "C05" else [])
+        # 1. corpus: minimised past failures and the witnesses of the repaired defects, both properties' files
+        rn.corpus(exe, ["C04", "C05"])
+        if ctx.stop():
+            return None
+        # 2. directed families: a racing call after every number of steps of the loop thread
+        sw = sweeps()
+        rn.run_progs(exe, sw, "sweep")
+        if ctx.stop():
+            return None
+        # 3. random programs and schedules
+        n = 700 if quick else 14000
+        done = 0
+        while done < n and not ctx.stop():
+            items = []
+            for j in range(min(256, n - done)):
+                i = done + j
+                elt = (i % 4 == 0) if which == "C04" else (i % 2 == 0)
+                p = gen_elt(ctx.rng) if elt else gen_plain(ctx.rng)
+                if i % 3 == 0:
+                    p.schedule = gen_schedule(ctx.rng)
+                    tag = "random-schedule"
+                else:
+                    p.follow = gen_follow(ctx.rng, p.thread_ids())
+                    tag = "random-follow"
+                items.append((tag + (":elt" if elt else ":plain"), p))
+            rn.run_progs(exe, items, "random")
+            done += len(items)
+        if ctx.stop():
+            return None
+        # 4. the use-after-free detector: EventLoopThread families again under ASan with fake stacks
+        if which == "C05":
+            asan = ctx.exe("loop_drv", "asan")
+            rn.env = ASAN_ENV
+            items = [(t + ":asan", p) for t, p in sw if p.mode == "elt"]
+            for path in sorted(glob.glob(os.path.join(CORPUS, "C05", "*.case"))):
+                engine, lines = read_case_file(path)
+                if engine == ENGINE:
+                    items.append(("corpus:asan", parse_case(lines)))
+            m = 60 if quick else 1500
+            for i in range(m):
+                p = gen_elt(ctx.rng)
+                if i % 3 == 0:
+                    p.schedule = gen_schedule(ctx.rng)
+                else:
+                    p.follow = gen_follow(ctx.rng, p.thread_ids())
+                items.append(("random:asan", p))
+            for i in range(0, len(items), 256):
+                rn.run_progs(asan, items[i:i + 256], "asan")
+                if ctx.stop():
+                    return None
+            rn.env = None
+        # 5. every schedule of a few small programs within a preemption bound
+        if not quick:
+            for name, p, bound in exhaustive_programs(which):
+                rn.exhaustive(exe, p, bound, 12000, "exhaustive:" + name)
+                if ctx.stop():
+                    return None
+        else:
+            for name, p, bound in exhaustive_programs(which)[:2]:
+                rn.exhaustive(exe, p, 1, 400, "exhaustive:" + name)
+                if ctx.stop():
+                    return None
+    finally:
+        rn.close()
+    return None
 
 
 def replay(prop, ctx, exe, lines, kinds):
